@@ -21,6 +21,7 @@ from .choice import derive
 from .shrink import minimise
 
 RUN_WALL_LIMIT = float(os.environ.get('VERIF_RUN_WALL', '30'))     # seconds per single run
+ISOLATE_EVERY = int(os.environ.get('VERIF_ISOLATE_EVERY', '25'))
 DIGEST_CAP = 3_000_000
 
 
@@ -110,7 +111,14 @@ def _worker(args):
     sim_s = 0.0
     for idx in range(start, stop):
         plan = eng.gen(prop, seed, idx, tier)
-        out = guarded_run(eng, prop, plan)
+        if idx % ISOLATE_EVERY == ISOLATE_EVERY - 1:
+            # a sample of the runs is executed in a freshly forked, pristine child: whatever the first call of a
+            # kind does in a process (build a cache, set a global) happens inside the run that is judged
+            out = isolated_run(eng, prop, plan)
+            out['stats'] = collections.Counter(out.get('stats', {}))
+            out['stats']['runs_in_pristine_process'] += 1
+        else:
+            out = guarded_run(eng, prop, plan)
         if 'harness_error' in out:
             if len(harness) < 3:
                 harness.append((idx, out['harness_error']))
@@ -132,7 +140,8 @@ def _worker(args):
             ent['count'] += 1
             # does the plan fail on its own, in a clean process? (a worker has executed other runs before)
             alone = 1
-            if ent['iso'] < 25 and not any(c[0] == 0 for c in ent['cands'][:2]):
+            if (ent['iso'] < 25 or (ent['iso'] < 200 and ent['count'] % 5 == 0)) and \
+                    not any(c[0] == 0 for c in ent['cands'][:2]):
                 ent['iso'] += 1
                 o2 = isolated_run(eng, prop, final)
                 if 'harness_error' not in o2 and o2['viol'] is not None and eng.same_signature(o2['viol']['sig'], sig):
@@ -380,7 +389,8 @@ def run_check(eng, prop, tier, seed, runs=None, jobs=None, out_dir=None):
         else:
             try:
                 mplan, used = minimise(run_fn, lambda p: eng.shrink(prop, p), plan, sig,
-                                       budget, same=eng.same_signature)
+                                       budget, same=eng.same_signature,
+                                       wall_limit=45 if tier == 'quick' else 300)
             except Exception:
                 # a fault in the shrinker must never lose the violation: report it unminimised
                 print('  (minimiser failed, reporting the unminimised plan)\n' + traceback.format_exc())
